@@ -14,12 +14,12 @@ use trv_core::evidence::{Report, Tier, Violation};
 use trv_core::inner::{GatedInner, Mode, Req};
 use trv_core::world::{drive_ready, World};
 
-/// refresh periods in ms; u64::MAX stands for Duration::MAX
+/// refresh periods in microseconds; u64::MAX stands for Duration::MAX
 const FOREVER: u64 = u64::MAX;
 
 fn run_pattern(window: WindowType, limit: usize, period: u64, bursts: &[(u64, usize)]) -> (Vec<u64>, Vec<(u64, bool)>, Option<String>) {
     let w = World::new(0, 10, Mode::Script, 1);
-    let p = if period == FOREVER { Duration::MAX } else { Duration::from_millis(period) };
+    let p = if period == FOREVER { Duration::MAX } else { Duration::from_micros(period) };
     let layer = RateLimiterLayer::builder().limit_for_period(limit).refresh_period(p).timeout_duration(Duration::ZERO).window_type(window).build();
     let svc = layer.layer(GatedInner::new(w.inner.clone()));
     let mut decisions = vec![];
@@ -67,14 +67,17 @@ pub fn run(prop: &'static str, tier: Tier, rep: &mut Report) {
             rep.violations.push(Violation { property: prop.into(), kind: kind.into(), site: site.into(), config, history, detail, log: vec![] });
         }
     };
+    // (limit, refresh period in microseconds): whole milliseconds, a fractional number of
+    // milliseconds (2.5 ms), less than a millisecond (0.9 ms), Duration::MAX
     let cfgs: Vec<(usize, u64)> = tier.pick(
-        vec![(1usize, 40u64), (2, 40), (50, 100), (1, FOREVER)],
-        vec![(1usize, 40u64), (2, 40), (3, 40), (5, 20), (50, 100), (100, 40), (1, FOREVER), (2, FOREVER), (1, 1), (3, 2)],
+        vec![(1usize, 40_000u64), (2, 40_000), (50, 100_000), (1, FOREVER), (1, 2_500), (3, 900)],
+        vec![(1usize, 40_000u64), (2, 40_000), (3, 40_000), (5, 20_000), (50, 100_000), (100, 40_000), (1, FOREVER), (2, FOREVER), (1, 1_000), (3, 2_000), (1, 2_500), (3, 2_500), (3, 900), (2, 10_500)],
     );
     for window in [WindowType::Fixed, WindowType::SlidingLog, WindowType::SlidingCounter] {
         for &(limit, period) in &cfgs {
             let site = wname(window);
-            let q = if period == FOREVER { 10 } else { (period / 4).max(1) };
+            // burst instants are whole milliseconds: a quarter of the period, at least 1 ms
+            let q = if period == FOREVER { 10 } else { (period / 4000).max(1) };
             // burst sizes: one short of the limit, the limit, twice the limit (at least 1 and 2)
             let sizes = [limit.saturating_sub(1).max(1), limit.max(1), (2 * limit).max(2)];
             let slots: Vec<u64> = (0..tier.pick(9u64, 13)).map(|i| i * q).collect();
@@ -100,7 +103,7 @@ pub fn run(prop: &'static str, tier: Tier, rep: &mut Report) {
             for pat in patterns {
                 let (adm, decisions, problem) = run_pattern(window, limit, period, &pat);
                 rep.evaluations += 1;
-                let config = format!("ratelimiter bursts window={} limit={} period={} timeout=0", site, limit, if period == FOREVER { "Duration::MAX".to_string() } else { format!("{period}ms") });
+                let config = format!("ratelimiter bursts window={} limit={} period={} timeout=0", site, limit, if period == FOREVER { "Duration::MAX".to_string() } else { format!("{}ms", period as f64 / 1000.0) });
                 let hist = json!({"bursts_ms_count": pat});
                 if let Some(p) = problem {
                     push(rep, "undecided_in_first_poll", site, config.clone(), hist.clone(), p);
@@ -110,17 +113,21 @@ pub fn run(prop: &'static str, tier: Tier, rep: &mut Report) {
                 if admitted != adm.len() {
                     push(rep, "admitted_vs_inner_calls", site, config.clone(), hist.clone(), format!("{admitted} callers were admitted but the wrapped service was called {} times", adm.len()));
                 }
-                let pms = if period == FOREVER { u64::MAX / 4 } else { period };
+                // admission instants in microseconds, like the period
+                let pus = if period == FOREVER { u64::MAX / 4 } else { period };
+                let adm_us: Vec<u64> = adm.iter().map(|t| t * 1000).collect();
                 let ok = match window {
-                    WindowType::SlidingLog => (0..adm.len()).all(|i| i + limit >= adm.len() || adm[i + limit] - adm[i] >= pms),
-                    _ => limit > 0 && cut_exists(&adm, limit, pms) || limit == 0 && adm.is_empty(),
+                    WindowType::SlidingLog => (0..adm_us.len()).all(|i| i + limit >= adm_us.len() || adm_us[i + limit] - adm_us[i] >= pus),
+                    _ => limit > 0 && cut_exists(&adm_us, limit, pus) || limit == 0 && adm_us.is_empty(),
                 };
                 if !ok || (limit == 0 && !adm.is_empty()) {
-                    push(rep, "window_overrun", site, config.clone(), hist.clone(), format!("admissions {:?} with limit_for_period {} per {}", adm, limit, if period == FOREVER { "Duration::MAX".to_string() } else { format!("{period}ms") }));
+                    push(rep, "window_overrun", site, config.clone(), hist.clone(), format!("admissions (ms) {:?} with limit_for_period {} per {}", adm, limit, if period == FOREVER { "Duration::MAX".to_string() } else { format!("{}ms", period as f64 / 1000.0) }));
                 }
                 if prop == "C15" && limit > 0 {
                     // spare capacity: fewer than `limit` admissions in the look-back window => admitted at once
-                    let lb = if period == FOREVER { u64::MAX / 4 } else if window == WindowType::SlidingCounter { 2 * period } else { period };
+                    // look-back in whole milliseconds, rounded up
+                    let pm = if period == FOREVER { u64::MAX / 4 } else { period.div_ceil(1000) };
+                    let lb = if period == FOREVER { pm } else if window == WindowType::SlidingCounter { 2 * pm } else { pm };
                     let mut seen: Vec<u64> = vec![];
                     for (t, a) in &decisions {
                         let recent = seen.iter().filter(|&&s| s.saturating_add(lb) > *t).count();
